@@ -17,8 +17,10 @@ cd355fe) was a defect of the script PARSER, which is not modelled: the harness f
 parser built (fnarg family, now run on the written tree).
 
 Left out (not modelled, not exercised): user-registered functions (code 'U'), the `get` pseudo
-operator (never placed in a program), data that is not made of nil/bool/int64/float64/string/[]any/
-map[string]any (gen.* nodes, reflection, Keyed/Indexed, other integer widths, time), path fragments
+operator (never placed in a program), NAVIGATION into data that is not made of nil/bool/int64/float64/
+string/[]any/map[string]any (typed Go values and gen.* nodes are modelled as OPERANDS — `Val.ext`, with the
+normalisation of sized numbers and gen scalars, `Val.norm` — but paths do not step into them here: that is
+C05/C11), Keyed/Indexed, time, path fragments
 other than member/index/wildcard, `Proc` fragments, and the location bookkeeping (`locs`). Path
 selection itself (`Expr.Get`, `Expr.FirstFound`) is NOT modelled here: the model uses the specification
 function `Spec.sel` for it (its own properties are C05/C11); the tie is the correspondence run. -/
@@ -62,7 +64,50 @@ def ifaceEq (d : Dev) (l r : Val) : Except Fault Bool :=
   | .nothing, .nothing => .ok true
   | .arr _, .arr _ => if d.uncmp then .error .uncomparable else .ok false
   | .obj _, .obj _ => if d.uncmp then .error .uncomparable else .ok false
+  | .ext a, .ext b =>      -- two typed values: Go compares only values of the same dynamic type
+    if a.ty = b.ty then
+      if a.cmp then .ok (a.id == b.id)
+      else if d.uncmp then .error .uncomparable else .ok false
+    else .ok false
   | _, _ => .ok false      -- different dynamic types; two *regexp.Regexp are distinct pointers
+
+/-! ### `sameValue` as the code has it (since 0a3fd2c)
+
+```go
+func sameValue(left, right any) bool {
+	if lt := reflect.TypeOf(left); lt != nil && !lt.Comparable() { return false }
+	return left == right
+}
+```
+`goEq` is the raw Go `==` on two interface values (faults when both hold the same uncomparable dynamic
+type), `comparable` the reflect test on the LEFT operand, `sameValue` the guarded comparison. The shape of
+the guard (a reflect `Comparable()` test on the left operand's type, no list of types) is the regenerated
+fact `Gen.Script.sameValueShape` (theorem `C12.same_value_shape_ok`). `ifaceEq d` is `goEq` when
+`d.uncmp` (before 0a3fd2c) and `sameValue` otherwise (`ifaceEq_eq_sameValue`). -/
+
+/-- `reflect.TypeOf(v).Comparable()`; the nil interface has no type (`lt == nil`: the guard is skipped) -/
+def comparable : Val → Bool
+  | .arr _ => false
+  | .obj _ => false
+  | .ext e => e.cmp
+  | _ => true
+
+/-- raw Go `left == right` -/
+def goEq (l r : Val) : Except Fault Bool :=
+  match l, r with
+  | .null, .null => .ok true
+  | .bool a, .bool b => .ok (a == b)
+  | .int a, .int b => .ok (a == b)
+  | .flt a, .flt b => .ok (Flt.eq a b)
+  | .str a, .str b => .ok (a == b)
+  | .nothing, .nothing => .ok true
+  | .arr _, .arr _ => .error .uncomparable
+  | .obj _, .obj _ => .error .uncomparable
+  | .ext a, .ext b => if a.ty = b.ty then (if a.cmp then .ok (a.id == b.id) else .error .uncomparable) else .ok false
+  | _, _ => .ok false
+
+def sameValue (l r : Val) : Except Fault Bool :=
+  if !comparable l then .ok false else goEq l r
 
 def asBool : Val → Bool
   | .bool b => b
@@ -302,12 +347,12 @@ def resolveItem (elem root : Val) (g : Bool) : Item → RItem
     else if Spec.Path.normal p then
       match Spec.sel p elem root with                         -- x.FirstFound(dv)
       | [] => .val .nothing
-      | v :: _ => .val v
+      | v :: _ => .val v.norm                                 -- `goto Normalize`
     else
       match Spec.sel p elem root with                         -- x.Get(dv)
       | [] => .val .nothing
-      | [v] => .val v
-      | vs => .multi vs
+      | [v] => .val v.norm                                    -- normalize(values[0])
+      | vs => .multi (vs.map Val.norm)                        -- mval[gi] = normalize(gv)
 
 /-- `o, ok := sstack[i-1].(*op); ok && o.getLeft`, read from the already resolved previous cell -/
 def RItem.nextGet : RItem → Bool
